@@ -40,6 +40,9 @@ pub struct InstallManifestBuilder {
     tags: Vec<InstallTag>,
     entries: Vec<InstallFileEntry>,
     tag_name_to_index: HashMap<String, usize>,
+    /// Header of the manifest the builder was created from (`from_manifest`).
+    /// `build` keeps its version and V2 extension fields; `None` builds V1.
+    source_header: Option<InstallHeader>,
 }
 
 impl InstallManifestBuilder {
@@ -49,6 +52,7 @@ impl InstallManifestBuilder {
             tags: Vec::new(),
             entries: Vec::new(),
             tag_name_to_index: HashMap::new(),
+            source_header: None,
         }
     }
 
@@ -65,6 +69,7 @@ impl InstallManifestBuilder {
             tags: manifest.tags.clone(),
             entries: manifest.entries.clone(),
             tag_name_to_index,
+            source_header: Some(manifest.header.clone()),
         }
     }
 
@@ -244,17 +249,30 @@ impl InstallManifestBuilder {
     ///
     /// Creates the header with current counts and validates the result.
     pub fn build(self) -> Result<InstallManifest> {
-        let header = InstallHeader::new(
+        let mut header = InstallHeader::new(
             u16::try_from(self.tags.len())
                 .map_err(|_| InstallError::TagNotFound("Too many tags".to_string()))?,
             u32::try_from(self.entries.len())
                 .map_err(|_| InstallError::TagNotFound("Too many entries".to_string()))?,
         );
+        let mut entries = self.entries;
+
+        // A builder loaded from a V2 manifest builds a V2 manifest again: the entries
+        // carry a file type byte that only a V2 header tells the parser to read
+        if let Some(source) = self.source_header.filter(|h| h.version >= 2) {
+            header.version = source.version;
+            header.content_key_size = source.content_key_size;
+            header.entry_count_v2 = source.entry_count_v2;
+            header.v2_unknown = source.v2_unknown;
+            for entry in &mut entries {
+                entry.file_type.get_or_insert(0);
+            }
+        }
 
         let manifest = InstallManifest {
             header,
             tags: self.tags,
-            entries: self.entries,
+            entries,
         };
 
         // Validate the built manifest
@@ -358,6 +376,7 @@ impl InstallManifestBuilder {
             tags: self.tags.clone(),
             entries: self.entries.clone(),
             tag_name_to_index: self.tag_name_to_index.clone(),
+            source_header: self.source_header.clone(),
         }
     }
 }
